@@ -11,7 +11,11 @@ from pathlib import Path
 
 HERE = Path(__file__).resolve().parent
 sys.path.insert(0, str(HERE))
-os.environ.setdefault("PYTHONHASHSEED", "0")
+if os.environ.get("PYTHONHASHSEED") is None:
+    # string hashing is fixed for the WHOLE check, this process included (set / dict iteration orders of the library under test
+    # would otherwise differ from run to run): start again with the variable set
+    os.environ["PYTHONHASHSEED"] = "0"
+    os.execv(sys.executable, [sys.executable] + sys.argv)
 
 import vlib  # noqa: E402
 
